@@ -97,7 +97,105 @@ const JQ_SEEDS: &[&str] = &[
 
 const FORMATS: &[&str] = &["json", "json", "yaml", "yaml", "cbor", "cbor", "toml", "xml", "xml", "csv", "tsv", "raw", "raw0", "jq", "jq"];
 
+/// Random JSON text (bounded depth and size): the value behind a generated document.
+fn gen_json(rng: &mut Rng, depth: u32, out: &mut String) {
+    let leaf = depth == 0 || rng.chance(2, 5);
+    if leaf {
+        match rng.usize(12) {
+            0 => out.push_str("null"),
+            1 => out.push_str("true"),
+            2 => out.push_str("false"),
+            3 => out.push_str(&rng.range(-1000, 1000).to_string()),
+            4 => out.push_str(*rng.pick(&["0", "-0", "1e3", "1.5", "-2.25e-3", "12345678901234567890123", "0.1", "1e400", "9007199254740993"])),
+            5 => out.push_str("\"\""),
+            6 => out.push_str(*rng.pick(&["\"a b\"", "\"null\"", "\"123\"", "\"true\"", "\"---\"", "\" lead\"", "\"trail \"", "\"a,b;c\\td\"", "\"<&>\\\"'\"", "\"- x\"", "\"k: v\"", "\"#c\""])),
+            7 => out.push_str("\"\\u00e9\\ud83d\\ude00\\u0000\\n\\t\""),
+            8 => {
+                out.push('"');
+                for _ in 0..rng.usize(40) {
+                    out.push(*rng.pick(&['a', 'Z', '0', ' ', '_', '-', '.', 'é', 'ß', '中']));
+                }
+                out.push('"');
+            }
+            9 => out.push_str("[]"),
+            10 => out.push_str("{}"),
+            _ => out.push_str(&format!("{}.{}", rng.range(-99, 99), rng.below(1000))),
+        }
+        return;
+    }
+    if rng.chance(1, 2) {
+        out.push('[');
+        let n = rng.usize(5);
+        for i in 0..n {
+            if i > 0 {
+                out.push(',');
+            }
+            gen_json(rng, depth - 1, out);
+        }
+        out.push(']');
+    } else {
+        out.push('{');
+        let n = rng.usize(5);
+        for i in 0..n {
+            if i > 0 {
+                out.push(',');
+            }
+            out.push_str(&format!("\"{}{}\":", *rng.pick(&["k", "key ", "a.b", "", "t", "c", "x-y", "é"]), i));
+            gen_json(rng, depth - 1, out);
+        }
+        out.push('}');
+    }
+}
+
+/// A document written by the tree's own writer for `fmt` from a generated value (None if the
+/// value lies outside the format's domain).
+fn generated_doc(rng: &mut Rng, fmt: &str) -> Option<Vec<u8>> {
+    let format = Format::parse(fmt)?;
+    let mut out = Vec::new();
+    let n = 1 + rng.usize(3);
+    for _ in 0..n {
+        let mut text = String::new();
+        match fmt {
+            // rows of scalars / tables: shape the value for the format's domain
+            "csv" | "tsv" => {
+                text.push('[');
+                for i in 0..rng.usize(5) {
+                    if i > 0 {
+                        text.push(',');
+                    }
+                    gen_json(rng, 0, &mut text);
+                }
+                text.push(']');
+            }
+            "toml" => {
+                text.push_str("{\"a\":");
+                gen_json(rng, 2, &mut text);
+                text.push_str(",\"t\":{\"b\":");
+                gen_json(rng, 1, &mut text);
+                text.push_str("}}");
+            }
+            "xml" => text.push_str("{\"t\":\"r\",\"a\":{\"x\":\"1\"},\"c\":[\"text\",{\"t\":\"e\"},{\"t\":\"f\",\"c\":[\"<&>\"]}]}"),
+            _ => gen_json(rng, 4, &mut text),
+        }
+        let val = read::json::parse_single(text.as_bytes()).ok()?;
+        let writer = Writer { format, ..Default::default() };
+        let mut buf = Vec::new();
+        jaq_all::fmts::write::write(&mut buf, &writer, &val).ok()?;
+        out.extend(buf);
+        if fmt == "toml" || fmt == "xml" {
+            break;
+        }
+    }
+    Some(out)
+}
+
 fn seed_doc(rng: &mut Rng, fmt: &str) -> Vec<u8> {
+    // one document in three is written by the tree's own writer from a generated value
+    if fmt != "jq" && fmt != "raw" && fmt != "raw0" && rng.chance(1, 3) {
+        if let Some(d) = generated_doc(rng, fmt) {
+            return d;
+        }
+    }
     let pick = |rng: &mut Rng, xs: &[&str]| rng.pick(xs).as_bytes().to_vec();
     match fmt {
         "json" => pick(rng, JSON_SEEDS),
@@ -715,7 +813,7 @@ pub fn check(cfg: &Cfg) -> Result<i32, Harness> {
         coverage: json!({
             "evaluations": evaluations,
             "distinct_nontrivial": keys.len(),
-            "rule": "RESTRICTED SCOPE: the stream-facing surface only. Each library case takes a seed document of one format (JSON/XJON, YAML, CBOR, TOML, XML, CSV, TSV, raw, raw0; hand-written to cover the syntax, plus CBOR written by the tree) or a stored program text (`jq`: what a filter file or module file holds; it is only compiled and its diagnostics rendered, never run), applies 0-3 storage/transport faults (truncation at a byte, bit flip, zeroed block, duplicated block, swapped blocks, inserted/deleted/overwritten byte, repeated opening token) and a delivery plan (chunk sizes 1..64, Interrupted, hard read error at a step or at the end), and runs (a) the streaming reader read::read over a fault-injecting BufRead, (b) the slice parser read::parse, (c) the from* filter, (d) every value writer on the values obtained, against a sink with short writes, Interrupted, write and flush failures. Oracle: no panic (catch_unwind; debug assertions and overflow checks on), no crash or hang of the worker process (1 GiB stack, 6 GiB address space), at most len+16 pulls up to the end or first error, polling twice after the end and up to three times after an error is harmless, a writer on a benign sink produces the plain bytes and on a failing sink returns the error. CLI pass: worlds of the C16/C17/C18 generators with an injected errno on a random read/write/open/stat/map/rename/chmod call; oracle: exit is not 101 / a signal / a hang. distinct = distinct (format, fault kinds, min(values,3)) plus distinct (world kind, fired fault, exit); trivial = undamaged document with the default plan.",
+            "rule": "RESTRICTED SCOPE: the stream-facing surface only. Each library case takes a seed document of one format (JSON/XJON, YAML, CBOR, TOML, XML, CSV, TSV, raw, raw0; hand-written to cover the syntax; one in three is instead written by the tree's own writer from a generated value of bounded depth) or a stored program text (`jq`: what a filter file or module file holds; it is only compiled and its diagnostics rendered, never run), applies 0-3 storage/transport faults (truncation at a byte, bit flip, zeroed block, duplicated block, swapped blocks, inserted/deleted/overwritten byte, repeated opening token) and a delivery plan (chunk sizes 1..64, Interrupted, hard read error at a step or at the end), and runs (a) the streaming reader read::read over a fault-injecting BufRead, (b) the slice parser read::parse, (c) the from* filter, (d) every value writer on the values obtained, against a sink with short writes, Interrupted, write and flush failures. Oracle: no panic (catch_unwind; debug assertions and overflow checks on), no crash or hang of the worker process (1 GiB stack, 6 GiB address space), at most len+16 pulls up to the end or first error, polling twice after the end and up to three times after an error is harmless, a writer on a benign sink produces the plain bytes and on a failing sink returns the error. CLI pass: worlds of the C16/C17/C18 generators with an injected errno on a random read/write/open/stat/map/rename/chmod call; oracle: exit is not 101 / a signal / a hang. distinct = distinct (format, fault kinds, min(values,3)) plus distinct (world kind, fired fault, exit); trivial = undamaged document with the default plan.",
             "by_format": pick("fmt:"),
             "faults_injected": pick("fault:"),
             "reach_probes": pick("reach:"),
